@@ -43,6 +43,19 @@ FIXED_B = [
      "messages": [{"sender": "s@rem.example", "rcpts": ["joe@loc.example"], "body": "x\n"}],
      "scripts": {"0:0": "ZZK"}, "bscript": "", "texts": ["ok"], "tape": [], "plan": ["inject", "answer", "advance_part:9", "alrm", "answer", "advance_part:50", "hup"],
      "actions": ["answer", "inject", "advance", "hup", "alrm"], "mode": {"kind": "none"}},
+    # four (then five) deferred messages on one channel with different due times: after each retry the daemon's next sleep must end at the
+    # earliest of the remaining due times (the priority queue must keep handing out its minimum; added after seeded change C16-E)
+    {"controls": {"me": "me.example\n", "locals": "loc.example\n"}, "limits": [120, 120],
+     "messages": [{"sender": "s@rem.example", "rcpts": ["r%d@rem.example" % i], "body": "x\n"} for i in range(4)],
+     "scripts": {"%d:0" % i: "ZZK" for i in range(4)}, "bscript": "", "texts": ["ok"], "tape": [],
+     "plan": ["inject", "answer", "advance_part:28", "inject", "answer", "advance_part:28", "inject", "answer", "advance_part:28", "inject", "answer"],
+     "actions": ["answer", "inject", "advance"], "mode": {"kind": "none"}},
+    {"controls": {"me": "me.example\n", "locals": "loc.example\n"}, "limits": [120, 120],
+     "messages": [{"sender": "s@rem.example", "rcpts": ["u%d@loc.example" % i], "body": "x\n"} for i in range(5)],
+     "scripts": {"%d:0" % i: "ZZZK" for i in range(5)}, "bscript": "", "texts": ["ok"], "tape": [],
+     "plan": ["inject", "answer", "advance_part:6", "inject", "answer", "advance_part:11", "inject", "answer", "advance_part:3", "inject", "answer", "advance_part:40",
+              "inject", "answer"],
+     "actions": ["answer", "inject", "advance"], "mode": {"kind": "none"}},
 ]
 
 
